@@ -948,6 +948,12 @@ def oracle_c13(case, real: Real):
         if first_ports is None:
             tags.add('no-refresh-seen')
             continue
+        push_mode = case['mode'] == 'push'
+        t_refresh = log[first_ports]['t']
+        if push_mode and any(x['t_down'] > w['t_up'] and x['t_down'] <= t_refresh for x in real.windows):
+            # a webhook-driven slave that did not show up while it was reachable: the master had no occasion to push
+            tags.add('no-refresh-seen')
+            continue
         before = log[:first_ports]
         if case['mode'] == 'listen':
             fd = next((i for i, e in enumerate(before) if e['method'] == 'GET' and e['path'].rstrip('/') == '/device'),
@@ -956,7 +962,9 @@ def oracle_c13(case, real: Real):
             if pushes_after_fetch:
                 return Failure('property', f'outage #{wi}: pending data pushed after the mirror refresh started: '
                                f'{pushes_after_fetch[:2]}', where='before-refresh'), tags
-        nxt = min([c['t'] for c in real.checks if c['t'] > w['t_up']] +
+        # (a webhook-driven slave is pushed to when it shows up, not when it becomes reachable: checks taken before that
+        # do not bound the reconnect)
+        nxt = min([c['t'] for c in real.checks if c['t'] > (t_refresh if push_mode else w['t_up'])] +
                   [x['t_down'] for x in real.windows if x['t_down'] > w['t_up']], default=None)
         horizon = [e for e in log[:first_ports + 40] if nxt is None or e['t'] < nxt]
         alive = set(w['ports_at_up']) - removed_in_window.get(wi, set())
@@ -1000,8 +1008,8 @@ def oracle_c13(case, real: Real):
                                    where='params-pushed-once'), tags
                 tags.add(name + '-pushed')
         # (3) afterwards nothing is pending: first check after this outage
-        after = next((c for c in real.checks if c['t'] > w['t_up'] and c['device'] and
-                      (c['device']['online'] or case['mode'] == 'push')), None)
+        after = next((c for c in real.checks if c['t'] > (t_refresh if push_mode else w['t_up']) and c['device'] and
+                      (c['device']['online'] or push_mode)), None)
         if after is not None:
             later_edit = any(ed['t'] > w['t_up'] and ed['t'] < after['t'] and not ed['sent'] for ed in real.edits)
             if not later_edit:
